@@ -819,6 +819,99 @@ void World::table_read_all()
     guard([&] { (void)T.lib->information().get(); });
 }
 
+// Crossover histories: the public track / crate API and the table API act on the same library in turn.  After a
+// table-API write, L's reference model (tracks, forest, sibling order, membership) is rebuilt from T's row model,
+// handles for new rows are obtained by id, and L's model checks then judge what the track / crate API reports
+// about state the OTHER public API produced.
+void World::cross_rebuild_l_model(const std::string& op)
+{
+    auto& T = *tstate;
+    // tracks
+    for (auto& sl : tracks)
+        if (sl.live && !T.rows.count(sl.id))
+        {
+            sl.live = false;
+            model.tracks.erase(sl.id);
+            model.dead_tracks.insert(sl.id);
+        }
+    for (auto& kv : T.rows)
+        if (!model.tracks.count(kv.first))
+        {
+            int64_t id = kv.first;
+            std::optional<dj::track> h;
+            Outcome o = call(FaultSpec{}, [&] { h = db->track_by_id(id); });
+            if (o.threw || !h)
+            {
+                report("C08", "C08|track_by_id|v2|table-row-not-found", "a track row added through the table API is not found by track_by_id");
+                continue;
+            }
+            if (model.dead_tracks.erase(id))
+                for (auto& sl : tracks)
+                    if (sl.id == id)
+                        sl.h.reset();
+            tracks.push_back({h, id, true});
+            model.tracks.insert(id);
+            model.issued_tracks.insert(id);
+            unanalysed.insert(id);  // not written through a snapshot: the statement's normalisations apply on first rewrite
+        }
+    // crates
+    for (auto& sl : crates)
+        if (sl.live && !T.lists.count(sl.id))
+            sl.live = false;
+    std::vector<int64_t> gone;
+    for (auto& kv : model.crates)
+        if (!T.lists.count(kv.first))
+            gone.push_back(kv.first);
+    for (auto id : gone)
+    {
+        model.crates.erase(id);
+        model.members.erase(id);
+        model.dead_crates.insert(id);
+    }
+    for (auto& kv : T.lists)
+    {
+        int64_t id = kv.first;
+        if (!model.crates.count(id))
+        {
+            std::optional<dj::crate> h;
+            Outcome o = call(FaultSpec{}, [&] { h = db->crate_by_id(id); });
+            if (o.threw || !h)
+            {
+                report("C07", "C07|crate_by_id|v2|table-row-not-found", "a playlist added through the table API is not found by crate_by_id");
+                continue;
+            }
+            if (model.dead_crates.erase(id))
+                for (auto& sl : crates)
+                    if (sl.id == id)
+                        sl.h.reset();
+            crates.push_back({h, id, true});
+            model.issued_crates.insert(id);
+        }
+        model.crates[id] = {id, kv.second.title, kv.second.parent};
+    }
+    model.order.clear();
+    for (auto& kv : T.order)
+        if (kv.first == 0 || T.lists.count(kv.first))
+            model.order[kv.first] = kv.second;
+    model.members.clear();
+    for (auto& kv : T.ents)
+        for (auto k : kv.second)
+            if (k > 0)
+                model.members[kv.first].push_back(k);
+    if (op.compare(0, 2, "t_") == 0)
+        for (auto& kv : T.rows)
+            unanalysed.insert(kv.first);  // rows (re)written through the table API hold values no snapshot write produces
+    free_elem.clear();
+    FullObs cur = observe();
+    if (check(CK_MODEL))
+        check_model(cur);
+    prev = cur;
+    have_prev = true;
+    state_hashes.insert(cur.hash());
+    probes.hit("cross_model_rebuilt");
+    (void)op;
+}
+
 void World::table_sync_from_db()
 {
     auto& T = *tstate;
@@ -910,6 +1003,8 @@ bool World::exec_table_op(const Step& s)
                 table_check(op, touched);
             if (check(CK_AUDIT) && !o.fault_fired && !stop)
                 audit();  // raw chains, integrity, foreign keys, blobs after table-API writes too (C11)
+            if (plan.cfg.profile.compare(0, 5, "cross") == 0 && !stop)
+                cross_rebuild_l_model(op);
             return;
         }
         StepEffect e;
@@ -1240,7 +1335,7 @@ bool World::exec_table_op(const Step& s)
             int64_t mref = (arg(2) % 3 == 0) ? 0 : 70000 + (int64_t)r.below(1000);
             // entries are keyed by (list, database uuid, track): one in eight names the same track id in ANOTHER database
             // (model key: the negated track id)
-            const bool foreign = !atomic && (arg(2) & 8) && (arg(3) & 1);
+            const bool foreign = !atomic && plan.cfg.profile.compare(0, 5, "cross") != 0 && (arg(2) & 8) && (arg(3) & 1);
             if (foreign && !mem.empty() && (arg(3) & 2))
             {
                 // prefer a track id the list already holds for the other database: same (list, track), different uuid
